@@ -68,6 +68,9 @@ class Pool:
                 raise UserFault("injected")
             return True
         self.filters2 = [None, accept, reject, selective, faulty]
+        self.rfilters = [None, lambda v: True, lambda v: v is not V0, lambda v: []]
+        for k_, v_ in enumerate(self.V):
+            v_.tag = k_ % 2
         self.filters1 = [None, lambda e: True, lambda e: 0, lambda e: isinstance(e, E["DirectedEdge"]),
                          _faulty1(E["UnDirectedEdge"])]
 
@@ -248,6 +251,64 @@ def op_table():
             return
         P.last_results.append(r)
 
+    @reg("traverse", 7, "traverse")
+    def _(P, kind, i, u, d, unk, fv, fr):
+        """run a traversal (list and generator form) and compare with the canonical machine of the property statement"""
+        start = P.vert(i)
+        if start is None:
+            return
+        uni = None if u < 0 else P.U[u % len(P.U)]
+        names = ["bft", "dft_recursive", "dft_iterative"]
+        nm = names[kind % 3]
+        mod = P.mods["breadthfirst"] if nm == "bft" else P.mods["depthfirst"]
+        d, unk = d % 3, unk % 3
+        ffv = P.filters2[fv % 4]           # well-behaved filters only (the faulty one is for C13)
+        ffr = P.rfilters[fr % len(P.rfilters)]
+        kw = dict(direction_sensitive=d, unknown_handling=unk, ff_via=ffv, ff_result=ffr)
+        try:
+            want = reference_listing(P, nm, uni, start, d, unk, ffv)
+        except RefAbort:
+            return                          # outside the functional contract (abnormal scan, start outside universe ...)
+        got = getattr(mod, nm)(uni, start, **kw)
+        gen = list(getattr(mod, "i" + nm)(uni, start, **kw))
+        want_f = [x for x in want if (ffr is None or ffr(x))]
+        if not same_seq(got, want_f):
+            raise PropertyViolation(f"C06/C07: {nm} lists {fmt(P, got)}, the canonical order is {fmt(P, want_f)}")
+        if not same_seq(gen, got):
+            raise PropertyViolation(f"C06: generator form of {nm} yields {fmt(P, gen)}, list form {fmt(P, got)}")
+        P.last_results.append(got)
+
+    @reg("search", 5, "traverse")
+    def _(P, kind, i, u, a, vv):
+        start = P.vert(i)
+        if start is None:
+            return
+        uni = None if u < 0 else P.U[u % len(P.U)]
+        names = ["bfs", "dfs_recursive", "dfs_iterative"]
+        nm = names[kind % 3]
+        mod = P.mods["breadthfirst"] if nm == "bfs" else P.mods["depthfirst"]
+        attrib = ["tag", "missing", "uid"][a % 3]
+        val = [0, 1, 1.0, "x"][vv % 4]
+        try:
+            order = reference_listing(P, {"bfs": "bft", "dfs_recursive": "dft_recursive", "dfs_iterative": "dft_iterative"}[nm],
+                                      uni, start, 0, 2, None)
+        except RefAbort:
+            return
+        want = None
+        for x in order:
+            if hasattr(x, attrib) and getattr(x, attrib) == val:
+                want = x
+                break
+        got = getattr(mod, nm)(uni, start, attrib, val)
+        if got is not want:
+            raise PropertyViolation(f"C08: {nm}({attrib}=={val!r}) returned {fmt(P, [got])}, the first match of the listing is {fmt(P, [want])}")
+
+    @reg("set_tag", 2, "traverse")
+    def _(P, i, t):
+        v = P.vert(i)
+        if v is not None:
+            v.tag = t % 2
+
     @reg("mutate_last_result", 1, "query")
     def _(P, k):
         # a caller may do anything with a container it was handed (C12)
@@ -262,6 +323,75 @@ def op_table():
         elif isinstance(r, set):
             r.clear()
     return T
+
+
+class RefAbort(Exception):
+    pass
+
+
+def same_seq(a, b):
+    return len(a) == len(b) and all(x is y for x, y in zip(a, b))
+
+
+def fmt(P, seq):
+    allv = P.V + P.U
+    out = []
+    for x in seq:
+        idx = [k for k, y in enumerate(allv) if y is x]
+        out.append(f"v{idx[0]}" if idx else repr(x))
+    return "[" + ", ".join(out) + "]"
+
+
+def reference_listing(P, kind, uni, start, d, unk, ffv):
+    """the canonical machines of the property statement (C07), on top of an *uncached* neighbors()"""
+    Vx = P.eg["Vertex"]
+    nbf = P.mods["helpers"].neighbors
+    members = None if uni is None else uni.vertices
+    if members is not None and (len(members) == 0 or not any(x is start for x in members)):
+        raise RefAbort()
+
+    def inU(w):
+        return members is None or any(x is w for x in members)
+
+    def N(x):
+        flag = Vx.NEIGHBOR_CACHING
+        Vx.NEIGHBOR_CACHING = False
+        try:
+            r = nbf(x, d, unk, ffv)
+        except Exception:
+            raise RefAbort()
+        finally:
+            Vx.NEIGHBOR_CACHING = flag
+        if any(w is None for w in r):
+            raise RefAbort()
+        return r
+    if kind == "bft":
+        A = [start]
+        k = 0
+        while k < len(A):
+            for w in N(A[k]):
+                if inU(w) and not any(w is y for y in A):
+                    A.append(w)
+            k += 1
+        return A
+    if kind == "dft_iterative":
+        stack, disc = [start], []
+        while stack:
+            v = stack.pop()
+            if any(v is y for y in disc) or not inU(v):
+                continue
+            disc.append(v)
+            stack.extend(N(v))
+        return disc
+    out = []
+
+    def rec(x):
+        out.append(x)
+        for w in N(x):
+            if inU(w) and not any(w is y for y in out):
+                rec(w)
+    rec(start)
+    return out
 
 
 class UserFault(Exception):
@@ -341,6 +471,8 @@ GROUPS = {
     "C04": ("assoc", "explicit", "query"), "C09": ("assoc", "explicit", "query"),
     "C05": ("assoc", "explicit", "cache", "query"), "C12": ("assoc", "member", "laws", "cache", "query"),
     "C13": ("assoc", "explicit", "query", "cache"),
+    "C06": ("assoc", "explicit", "member", "traverse"), "C07": ("assoc", "explicit", "member", "traverse"),
+    "C08": ("assoc", "explicit", "member", "traverse"),
 }
 
 
@@ -351,6 +483,11 @@ def fresh_world(repo_root, only=None):
     for m in ("explicit",):
         try:
             mods[m] = importlib.import_module("edgegraph.builder." + m)
+        except Exception:
+            pass
+    for m in ("breadthfirst", "depthfirst"):
+        try:
+            mods[m] = importlib.import_module("edgegraph.traversal." + m)
         except Exception:
             pass
     try:
